@@ -42,6 +42,32 @@ def run(argv):
     return status, out.getvalue(), err.getvalue(), exc
 
 
+def parse(argv):
+    """The argparse namespace the entry script would build for argv (same sub-parsers as main())."""
+    import argparse
+    from trees import transform, treeanalysis, grammar, transitions
+    parser = argparse.ArgumentParser()
+    subparsers = parser.add_subparsers(dest='subparser_name')
+    subparsers.required = True
+    for m in (transform, treeanalysis, grammar, transitions):
+        m.add_parser(subparsers)
+    return parser.parse_args([str(a) for a in argv])
+
+
+def call(ns):
+    """Runs the sub-command on a namespace the caller holds (and may hand in again): (status, stdout, stderr, exc)."""
+    out, err = io.StringIO(), io.StringIO()
+    status, exc = 0, None
+    with contextlib.redirect_stdout(out), contextlib.redirect_stderr(err):
+        try:
+            ns.func(ns)
+        except SystemExit as e:
+            status = 0 if e.code in (None, 0) else (e.code if isinstance(e.code, int) else 1)
+        except BaseException as e:
+            status, exc = 1, e
+    return status, out.getvalue(), err.getvalue(), exc
+
+
 def run_subprocess(argv, env_extra=None, cwd=None):
     env = dict(os.environ)
     env['PYTHONPATH'] = REPO
